@@ -28,7 +28,7 @@ FAMILIES = ["polynomial", "rational", "power", "trig", "mixed", "constant"]
 def plan(tier, seed):
     n = 160 if tier == "quick" else 1600
     cases = [{"kind": "generated", "family": FAMILIES[k % len(FAMILIES)], "n_idx": (k // 6) % 5,
-              "depth": 1 + (k // 30) % 3, "shadow": (k % 7 == 3), "k": k, "cost": 0.3 + 0.3 * ((k // 30) % 3)} for k in range(n)]
+              "depth": 1 + (k // 30) % 3, "shadow": (k % 7 == 3), "leak": (k % 5 == 2), "k": k, "cost": 0.3 + 0.3 * ((k // 30) % 3)} for k in range(n)]
     for name in ("jpsi_p_pbar_pi0__n1440.hel", "lambdac_p_km_pip__l1520.hel", "jpsi_gamma_pi0_pi0__f0.hel",
                  "tau_nu_pim_pi0__rho.hel", "jpsi_k0_sigmap_pbar__sigma1750.hel", "d0_km_pip_pip_pim__kst_rho.hel"):
         for align in ("none", "axisangle", "dpd"):
@@ -236,6 +236,9 @@ def build_generated(case, ctx, rng):
             pools.append((s, vals))
         fam = case["family"] if level == depth - 1 else FAMILIES[int(rng.integers(0, 5))]
         body = _summand(fam, idx_syms, ctx["free"], rng, inner)
+        if case.get("leak") and level > 0 and used and used[0] not in idx_syms:
+            # the index of a deeper sum also occurs *free* at this level (bound inside, free outside)
+            body = body * (used[0] + 2) + used[0]
         inner = PoolSum(body, *pools)
         used += [s for s in idx_syms if s not in used]
     return inner, shapes
@@ -259,6 +262,10 @@ def run_case(case, rec, ctx):
     sig = ",".join(sorted(set(shapes)))
     rec.sample(f"{case['family']}:d{case['depth']}{':shadow' if case['shadow'] else ''}", str(P))
     env = {s: sp.Rational(int(rng.integers(2, 40)), int(rng.integers(7, 13))) for s in (a, b, c)}
+    leaked = sorted(ref_free_symbols(P, PoolSum) - {a, b, c}, key=str)   # index symbols of deeper sums that are free here
+    for s in leaked:
+        env[s] = sp.Rational(int(rng.integers(2, 40)), int(rng.integers(7, 13)))
+    feats["free_symbol_bound_deeper"] = bool(leaked)
 
     def law(name, ok, what, wit=None, extra=None):
         rec.case((name, case["family"], len(idx_all), sig, case["depth"], case["shadow"]), nontrivial, law=name,
@@ -294,11 +301,15 @@ def run_case(case, rec, ctx):
     # 4. substitution of free symbols commutes with evaluation
     x = sp.Symbol("x", real=True)
     maps = [(a, sp.Rational(5, 3)), (b, x), (c, a + 2), (a, b), (b, sp.Integer(5)), (c, sp.Integer(3))]
+    for s in leaked:
+        maps += [(s, sp.Integer(7)), (s, x + 1)]
     for old, new in maps:
         if old not in fs_ref:
             continue
         env2 = dict(env); env2[x] = sp.Rational(7, 5)
-        for api in ("subs", "xreplace"):
+        # xreplace is SymPy's purely structural replacement (it also rewrites bound variables of Sum/Integral): for a symbol
+        # that is free here but bound by a deeper sum only subs - the operation the statement speaks of - is judged
+        for api in (("subs",) if old in leaked else ("subs", "xreplace")):
             try:
                 lhs = P.subs(old, new) if api == "subs" else P.xreplace({old: new})
                 lhs_v = ref_value(sp.sympify(lhs), env2, PoolSum) if sp.sympify(lhs).atoms(PoolSum) else _num(sp.sympify(lhs), env2)
